@@ -5,14 +5,19 @@ set -e
 cd "$(dirname "$0")"
 export GOFLAGS=-mod=mod GOPROXY=off GOSUMDB=off GOTOOLCHAIN=local
 ./scripts/coqproject.sh
-( cd coq && timeout 7200 make -j"$(nproc)" ) 
+# Best-effort pre-build of every Coq file: a file that does not compile (or runs away: 40 min and 24 GB per file at most)
+# must not keep the other properties from being built - each check re-builds and re-checks its own theorems file on
+# every run and reports a broken one itself.
+( cd coq && ulimit -v 24000000 && timeout 5400 make -k -j"$(nproc)" COQC="timeout 2400 coqc" ) || \
+  echo "setup: WARNING: some Coq files did not build; the checks that need them will report it"
 python3 - <<'PY'
 import sys, os, importlib, glob
 sys.path.insert(0, "checks")
 import common
 bad = common.forbidden_words([common.COQ])
 if bad:
-    print("forbidden constructs in the Coq development:", bad); sys.exit(1)
+    # every check runs the same scan over its own directories on every run and fails its proof obligations on a hit
+    print("setup: WARNING: forbidden constructs in the Coq development (the checks of these properties will fail):", bad)
 rc = 0
 for f in sorted(glob.glob("checks/c[0-9][0-9].py")):
     name = os.path.basename(f)[:-3]
@@ -22,6 +27,6 @@ for f in sorted(glob.glob("checks/c[0-9][0-9].py")):
             mod.build(common.Ctx(name.upper(), "quick", 0))
             print("built", name)
         except Exception as e:
-            print("build of", name, "failed:", e); rc = 1
+            print("setup: WARNING: build of", name, "failed (its check will report it):", str(e)[-300:])
 sys.exit(rc)
 PY
